@@ -47,6 +47,8 @@ var shapes = map[string]shape{
 	"f": {2, true, []int{1}, []bool{true}},
 	"g": {1, false, []int{1, 2}, []bool{false, false}},
 	"h": {2, false, []int{1, 2, 1}, []bool{false, false, false}}, // the same data id twice in one chunk, full form
+	"k": {1, true, []int{1, 2}, []bool{true, false}},               // an aliased group followed by a new id in full form
+	"m": {2, false, []int{2, 1, 3}, []bool{true, true, false}},     // two aliased groups, then a third id in full form
 }
 
 type params struct {
@@ -56,12 +58,16 @@ type params struct {
 	Predecl bool // D2 pre-registered with WithDownstreamDataIDs
 	F       int  // link failures (C04 thorough)
 	P       int
+	HoldAck bool // the client's transport write stalls while an ack flush is under way, a second chunk is read meanwhile, then the link is cut
 	Stream  bool // a reader thread consumes while the broker keeps sending at intervals (early timer firing allowed: T=1)
 }
 
 func (p params) name() string {
 	if p.Stream {
 		return fmt.Sprintf("stream-%s/P%d", strings.Join(p.Seq, ""), p.P)
+	}
+	if p.HoldAck {
+		return fmt.Sprintf("holdack-%s/P%d", strings.Join(p.Seq, ""), p.P)
 	}
 	return fmt.Sprintf("%s/q%d/u%v/pre%v/F%d/P%d", strings.Join(p.Seq, ""), p.QoS, p.Unrel, p.Predecl, p.F, p.P)
 }
@@ -110,12 +116,15 @@ func scenarios(tier string) []vlib.Scenario {
 		add(params{Seq: s, QoS: message.QoSReliable})
 	}
 	add(params{Seq: []string{"a", "M1", "b", "M2"}, QoS: message.QoSReliable})
-	for _, sq := range [][]string{{"h"}, {"h", "b"}, {"a", "h"}, {"h", "h"}, {"c", "h", "f"}} {
+	for _, sq := range [][]string{{"h"}, {"h", "b"}, {"a", "h"}, {"h", "h"}, {"c", "h", "f"}, {"a", "k"}, {"a", "k", "e"}, {"g", "m"}, {"g", "m", "m"}, {"k"}} {
 		add(params{Seq: sq, QoS: message.QoSReliable})
 	}
 	add(params{Seq: []string{"a", "c"}, QoS: message.QoSReliable, P: 1, Stream: true})
 	add(params{Seq: []string{"a", "a", "b"}, QoS: message.QoSReliable, P: 1})
 	add(params{Seq: []string{"a", "c", "f"}, QoS: message.QoSReliable, P: 1})
+	// an acknowledgement whose write stalls and then fails with the link, while the application goes on reading
+	add(params{Seq: []string{"a", "c"}, QoS: message.QoSReliable, HoldAck: true})
+	add(params{Seq: []string{"a", "c"}, QoS: message.QoSReliable, HoldAck: true, P: 1})
 	// an outage (link cut at quiescence, resume) between the items
 	for _, s := range seqs([]string{"a", "b", "c"}, 2) {
 		add(params{Seq: s, QoS: message.QoSReliable, F: 1})
@@ -326,6 +335,36 @@ func (w *world) main() {
 		return
 	}
 	w.Phase = "run"
+	if w.p.HoldAck {
+		w.sendItem(0, w.p.Seq[0])
+		vsched.Quiesce()
+		w.readOne("chunk")
+		live := w.B.Live()
+		live.Link.HoldClientWrites = true
+		vsched.Sleep(150*time.Millisecond, "h:ack-flush-stalls")
+		w.sendItem(1, w.p.Seq[1])
+		vsched.Quiesce()
+		var wg vsched.WaitGroup
+		wg.Add(1)
+		vsched.Go("h:reader", func() { defer wg.Done(); w.readOne("chunk") })
+		vsched.Quiesce()
+		w.cuts++
+		w.B.Cut(live)
+		vsched.Sleep(8*time.Second, "h:recover")
+		wg.Wait()
+		w.Phase = "close"
+		cctx, ccancel := kit.Ctx(10 * time.Second)
+		w.closeErr = w.Downs[0].D.Close(cctx)
+		ccancel()
+		vsched.Quiesce()
+		w.Phase = "connclose"
+		xctx, xcancel := kit.Ctx(5 * time.Second)
+		w.Conn.Close(xctx)
+		xcancel()
+		w.B.Stop()
+		w.Phase = "done"
+		return
+	}
 	if w.p.Stream {
 		// the broker keeps sending at intervals while a reader thread consumes
 		var wg vsched.WaitGroup
